@@ -5,7 +5,7 @@ import KrakenModel.Spec.C27
   C26  Tracker handouts never include the announcer and respect priority and limits.
 
   Statements are about `Model.Handout` (announce handler + SortPeers with the announcer recognised by
-  peer id — the repaired code) on top of the peer-store model of C27.  `Admissible` quantifies over
+  peer id and every peer id kept once — the repaired code) on top of the peer-store model of C27.  `Admissible` quantifies over
   every result the unstable `sort.Slice` may produce; `announce_spec` quantifies over every history
   and interleaving of the peer store (all announce sequences by any number of peers with any flags,
   clock advances and cleanups), every handout limit, every origin set and every permutation drawn by
@@ -14,51 +14,94 @@ import KrakenModel.Spec.C27
 namespace KrakenModel.Spec.C26
 open KrakenModel KrakenModel.PeerStore KrakenModel.Handout
 
-theorem mem_candidates {src : Info} {peers origins : List Info} {x : Info} :
-    x ∈ candidates src peers origins ↔ (x ∈ peers ∨ x ∈ origins) ∧ x.id ≠ src.id := by
-  simp [candidates, List.mem_filter, List.mem_append, or_and_right]
+/-! ### the `seen` map -/
 
-/-- **C26 (1)** No admissible result of `SortPeers` lists the announcer. -/
+theorem dedupAux_spec (l : List Info) : ∀ (seen : List Nat),
+    ((dedupAux seen l).map (·.id)).Nodup ∧
+    (∀ x, x ∈ dedupAux seen l → x ∈ l ∧ x.id ∉ seen) ∧
+    (∀ x, x ∈ l → x.id ∉ seen → x.id ∈ (dedupAux seen l).map (·.id)) ∧
+    (dedupAux seen l).Sublist l := by
+  induction l with
+  | nil => intro seen; simp [dedupAux]
+  | cons a l ih =>
+    intro seen
+    simp only [dedupAux]
+    split
+    · rename_i hs
+      obtain ⟨h1, h2, h3, h4⟩ := ih seen
+      refine ⟨h1, ?_, ?_, h4.cons a⟩
+      · intro x hx; obtain ⟨hx1, hx2⟩ := h2 x hx; exact ⟨List.mem_cons_of_mem _ hx1, hx2⟩
+      · intro x hx hns
+        rcases List.mem_cons.mp hx with e | e
+        · subst e; exact absurd hs hns
+        · exact h3 x e hns
+    · rename_i hs
+      obtain ⟨h1, h2, h3, h4⟩ := ih (a.id :: seen)
+      refine ⟨?_, ?_, ?_, h4.cons₂ a⟩
+      · simp only [List.map_cons, List.nodup_cons]
+        refine ⟨?_, h1⟩
+        intro hm
+        obtain ⟨x, hx, hxa⟩ := List.mem_map.mp hm
+        exact (h2 x hx).2 (by rw [hxa]; exact List.mem_cons_self ..)
+      · intro x hx
+        rcases List.mem_cons.mp hx with e | e
+        · subst e; exact ⟨List.mem_cons_self .., hs⟩
+        · obtain ⟨hx1, hx2⟩ := h2 x e
+          exact ⟨List.mem_cons_of_mem _ hx1, fun h => hx2 (List.mem_cons_of_mem _ h)⟩
+      · intro x hx hns
+        simp only [List.map_cons, List.mem_cons]
+        by_cases hid : x.id = a.id
+        · exact Or.inl hid
+        · right
+          rcases List.mem_cons.mp hx with e | e
+          · subst e; exact absurd rfl hid
+          · exact h3 x e (by simp only [List.mem_cons, not_or]; exact ⟨hid, hns⟩)
+
+theorem mem_candidates {src : Info} {peers origins : List Info} {x : Info}
+    (h : x ∈ candidates src peers origins) : (x ∈ peers ∨ x ∈ origins) ∧ x.id ≠ src.id := by
+  unfold candidates dedupById at h
+  have := ((dedupAux_spec _ []).2.1 x h).1
+  simpa [List.mem_filter, List.mem_append, or_and_right] using this
+
+/-- **C26 (1)** No admissible result of `SortPeers` lists the announcer — whatever the stores
+returned (also the announcer under another address, port or flag, or several times). -/
 theorem handout_excludes_announcer (pol : Policy) (src : Info) (peers origins out : List Info)
     (h : Admissible pol src peers origins out) : src.id ∉ out.map (·.id) := by
   intro hm
   obtain ⟨x, hx, hxid⟩ := List.mem_map.mp hm
-  exact (mem_candidates.mp (h.1.mem_iff.mp hx)).2 hxid
+  exact (mem_candidates (h.1.mem_iff.mp hx)).2 hxid
 
-/-- **C26 (2)** No peer twice: if the store's answer and the origin list are duplicate-free and
-origins are not also agents, the handout has no two entries with the same peer id. -/
+/-- **C26 (2)** No peer twice — unconditionally: whatever the peer store and the origin store
+returned (duplicate ids, an origin that also announces), the handout has no two entries with the
+same peer id. -/
 theorem handout_nodup (pol : Policy) (src : Info) (peers origins out : List Info)
-    (hp : (peers.map (·.id)).Nodup) (ho : (origins.map (·.id)).Nodup)
-    (hd : ∀ o, o ∈ origins → ∀ x, x ∈ peers → o.id ≠ x.id)
     (h : Admissible pol src peers origins out) : (out.map (·.id)).Nodup := by
   rw [(h.1.map (·.id)).nodup_iff]
-  unfold candidates
-  have hall : ((peers ++ origins).map (·.id)).Nodup := by
-    rw [List.map_append, List.nodup_append]
-    refine ⟨hp, ho, ?_⟩
-    intro a ha b hb hab
-    obtain ⟨x, hx, hxa⟩ := List.mem_map.mp ha
-    obtain ⟨o, ho', hob⟩ := List.mem_map.mp hb
-    exact hd o ho' x hx (by rw [hob, hxa]; exact hab.symm)
-  exact (List.filter_sublist.map _).nodup hall
+  exact (dedupAux_spec _ []).1
 
 /-- **C26 (3)** Size: at most what the store returned plus the origins. -/
 theorem handout_length (pol : Policy) (src : Info) (peers origins out : List Info)
     (h : Admissible pol src peers origins out) : out.length ≤ peers.length + origins.length := by
   rw [h.1.length_eq]
-  unfold candidates
-  exact Nat.le_trans (List.length_filter_le _ _) (by simp)
+  unfold candidates dedupById
+  exact Nat.le_trans ((dedupAux_spec _ []).2.2.2.length_le)
+    (Nat.le_trans (List.length_filter_le _ _) (by simp))
 
 /-- every entry of the handout comes from the store's answer or the origin list -/
 theorem handout_subset (pol : Policy) (src : Info) (peers origins out : List Info)
     (h : Admissible pol src peers origins out) : ∀ x, x ∈ out → x ∈ peers ∨ x ∈ origins :=
-  fun x hx => (mem_candidates.mp (h.1.mem_iff.mp hx)).1
+  fun x hx => (mem_candidates (h.1.mem_iff.mp hx)).1
 
-/-- and nobody but the announcer is dropped -/
+/-- and no peer id but the announcer's is dropped -/
 theorem handout_complete (pol : Policy) (src : Info) (peers origins out : List Info)
     (h : Admissible pol src peers origins out) :
-    ∀ x, (x ∈ peers ∨ x ∈ origins) → x.id ≠ src.id → x ∈ out :=
-  fun x hx hne => h.1.mem_iff.mpr (mem_candidates.mpr ⟨hx, hne⟩)
+    ∀ x, (x ∈ peers ∨ x ∈ origins) → x.id ≠ src.id → x.id ∈ out.map (·.id) := by
+  intro x hx hne
+  rw [(h.1.map (·.id)).mem_iff]
+  unfold candidates dedupById
+  apply (dedupAux_spec _ []).2.2.1 x _ (by simp)
+  simp only [List.mem_filter, List.mem_append]
+  exact ⟨hx, by simpa using hne⟩
 
 theorem sorted_tiers (pol : Policy) : ∀ (l : List Info), Sorted pol l → (∀ x, x ∈ l → prio pol x ≤ 2) →
     l = l.filter (fun x => prio pol x = 0) ++ l.filter (fun x => prio pol x = 1) ++
@@ -124,7 +167,7 @@ theorem handout_order (pol : Policy) (src : Info) (peers origins out : List Info
   rw [f0, f1, f2] at this
   exact this
 
-/-- **C26 (5)** An announcer that reports completion gets an empty handout (whatever is stored). -/
+/-- the completion short-circuit of `getPeerHandout` (definitional; the clause is part of `announce_spec`) -/
 theorem complete_gets_nothing (src : Info) (peers origins out : List Info) (hc : src.complete = true) :
     respond src peers origins out = .handout [] := by
   simp [respond, hc]
@@ -144,35 +187,57 @@ theorem sortStable_admissible (pol : Policy) (src : Info) (peers origins : List 
     (by intro a b c hab hbc; simp at *; omega) (by intro a b; simp; omega) (candidates src peers origins)
   simpa using this
 
-/-- **C26 (6)** The announce response, for every history and interleaving of the peer store: when the
-announcer's lookup (any limit `n`, any permutation) returns `r`, every result of
-`SortPeers(src, r ++ origins)` — for every origin list whose peers are distinct and do not announce —
-omits the announcer, lists no peer twice, has at most `max n 0` agents' worth of entries plus the
-origins, is ordered by priority, and every agent in it is a stored entry of the lookup's group
-(by C27: the agent's most recent announcement). -/
+/-- **C26 (5)** The announce response, for every history and interleaving of the peer store
+(announce sequences by any number of peers with any flags, clock advances, cleanups): when the
+announcer's lookup `GetPeers(h, effLimit cfg.limit)` (any permutation) returns `r`, then for every
+origin list and every result `out` the unstable sort may produce, the handler's answer
+`respond src r origins out` is
+  * 500 only if the announcer is incomplete and neither store returned anything;
+  * otherwise a handout that is empty for a completed announcer, omits the announcer, lists no peer id
+    twice, has at most `max (effLimit cfg.limit) 0 + |origins|` entries, is ordered by priority, and
+    consists of origins and stored entries of the lookup's group (by C27: most recent announcements). -/
 theorem announce_spec (ttl : Nat) (acts : List Act) (t : Nat) (perm : List Nat) (r : List Info)
-    (h : Hash) (gid : Nat) (n : Int)
-    (ht : tget ((C27.sys ttl).run acts) t = .getHold h gid n)
+    (h : Hash) (gid : Nat) (cfg : Cfg)
+    (ht : tget ((C27.sys ttl).run acts) t = .getHold h gid (effLimit cfg.limit))
     (hr : getOut ((C27.sys ttl).run acts) t perm = some r)
-    (pol : Policy) (src : Info) (origins out : List Info)
-    (ho : (origins.map (·.id)).Nodup) (hd : ∀ o, o ∈ origins → ∀ x, x ∈ r → o.id ≠ x.id)
-    (hadm : Admissible pol src r origins out) :
-    src.id ∉ out.map (·.id) ∧ (out.map (·.id)).Nodup ∧
-    (out.length : Int) ≤ max n 0 + origins.length ∧
-    out.Pairwise (fun a b => prio pol a ≤ prio pol b) ∧
-    (∀ x, x ∈ out → x ∈ origins ∨
-      ∃ g e, ((C27.sys ttl).run acts).heap[gid]? = some g ∧ e ∈ g.list ∧ x = e.info) := by
-  obtain ⟨hlen, hnd, hmem⟩ := C27.get_spec ttl acts t perm r h gid n ht hr
-  refine ⟨handout_excludes_announcer pol src r origins out hadm,
-    handout_nodup pol src r origins out hnd ho hd hadm, ?_, hadm.2, ?_⟩
-  · have := handout_length pol src r origins out hadm
-    omega
-  · intro x hx
-    rcases handout_subset pol src r origins out hadm x hx with h1 | h1
-    · right
-      obtain ⟨g, e, h2, h3, h4, _⟩ := hmem x h1
-      exact ⟨g, e, h2, h3, h4⟩
-    · exact Or.inl h1
+    (src : Info) (origins out : List Info) (hadm : Admissible cfg.pol src r origins out) :
+    match respond src r origins out with
+    | .noPeers => src.complete = false ∧ r = [] ∧ origins = []
+    | .handout l =>
+      (src.complete = true → l = []) ∧ src.id ∉ l.map (·.id) ∧ (l.map (·.id)).Nodup ∧
+      (l.length : Int) ≤ max (effLimit cfg.limit) 0 + origins.length ∧
+      l.Pairwise (fun a b => prio cfg.pol a ≤ prio cfg.pol b) ∧
+      (∀ x, x ∈ l → x ∈ origins ∨
+        ∃ g e, ((C27.sys ttl).run acts).heap[gid]? = some g ∧ e ∈ g.list ∧ x = e.info) := by
+  obtain ⟨hlen, _, hmem⟩ := C27.get_spec ttl acts t perm r h gid (effLimit cfg.limit) ht hr
+  by_cases hc : src.complete = true
+  · have e : respond src r origins out = .handout [] := by simp [respond, hc]
+    rw [e]
+    refine ⟨fun _ => rfl, by simp, by simp, ?_, List.Pairwise.nil, by simp⟩
+    simp only [List.length_nil]; omega
+  · by_cases he : r ++ origins = []
+    · have e : respond src r origins out = .noPeers := by simp [respond, hc, he]
+      rw [e]
+      have he' := List.append_eq_nil_iff.mp he
+      exact ⟨by simpa using hc, he'.1, he'.2⟩
+    · have e : respond src r origins out = .handout out := by simp [respond, hc, he]
+      rw [e]
+      refine ⟨fun h => absurd h hc, handout_excludes_announcer cfg.pol src r origins out hadm,
+        handout_nodup cfg.pol src r origins out hadm, ?_, hadm.2, ?_⟩
+      · have := handout_length cfg.pol src r origins out hadm
+        omega
+      · intro x hx
+        rcases handout_subset cfg.pol src r origins out hadm x hx with h1 | h1
+        · right
+          obtain ⟨g, e, h2, h3, h4, _⟩ := hmem x h1
+          exact ⟨g, e, h2, h3, h4⟩
+        · exact Or.inl h1
+
+/-- the executable sequential handler `announceSeq` answers with such a response: its lookup is the
+thread's `getHold` with the defaulted limit and its order is an admissible one -/
+theorem announceSeq_admissible (cfg : Cfg) (src : Info) (peers origins : List Info) :
+    Admissible cfg.pol src peers origins (sortStable cfg.pol (candidates src peers origins)) :=
+  sortStable_admissible cfg.pol src peers origins
 
 /-! Non-vacuity on literals -/
 
@@ -188,5 +253,7 @@ example : respond pa [pa] [] [] = .handout [] := by decide
 example : respond pa [] [] [] = .noPeers := by decide
 -- a store that returned the announcer under another object identity is still filtered
 example : candidates pa [{ pa with port := 99 }] [] = [] := by decide
+-- a peer id listed twice by the store (two endpoints) and an origin that also announced are handed out once
+example : candidates pa [pb, { pb with port := 99 }, pc] [o0, { o0 with ip := 7 }, { pc with origin := true }] = [pb, pc, o0] := by decide
 
 end KrakenModel.Spec.C26
